@@ -24,17 +24,37 @@ def regenerate():
     return out
 
 
+def claimed_properties():
+    import json
+    try:
+        m = json.load(open(os.path.join(core.VERIF, "MANIFEST.json")))
+        return [c["property_id"] for c in m["checks"]]
+    except Exception:
+        return []
+
+
 def main():
+    """Build the framework from files on disk.  Fails only if the extension cannot be built or a
+    CLAIMED property's Coq cone does not compile; files of properties still under construction
+    are built best-effort (make -k)."""
     t0 = time.time()
     regenerate()
     for v in ("plain", "boundscheck"):
         core.build_pyx(v)
         print("built set_operations (%s) %.1fs" % (v, time.time() - t0))
-    ok, log = core.coq_make()
-    print(log[-4000:])
-    print("coq build ok=%s  %.1fs" % (ok, time.time() - t0))
-    bad = core.coq_hygiene()
-    if bad:
-        print("HYGIENE:", bad)
-        return 1
-    return 0 if ok else 1
+    ok_all, log = core.coq_make()
+    print(log[-3000:])
+    print("coq build (all files, -k) ok=%s  %.1fs" % (ok_all, time.time() - t0))
+    rc = 0
+    for p in claimed_properties():
+        for f in sorted(os.listdir(os.path.join(core.COQ, "theories", "Properties"))):
+            if f.startswith(p) and f.endswith(".v"):
+                rel = os.path.join("theories", "Properties", f)
+                cone = core.coq_deps(rel)
+                missing = [c for c in cone if not os.path.exists(os.path.join(core.COQ, core.vo_of(c)))]
+                bad = core.coq_hygiene(cone)
+                if missing or bad:
+                    print("SETUP: property %s: %s not built: %s %s" % (p, f, missing, bad))
+                    rc = 1
+    print("setup rc=%d  %.1fs" % (rc, time.time() - t0))
+    return rc
